@@ -793,6 +793,134 @@ fn mutex_blocking_vs_starved() {
     });
 }
 
+/// C06 / C10, the three events of the RwLock together: a reader holds; a write() is announced and waits on no_readers; a
+/// read() waits on no_writer behind it; an upgradable_read() waits on the inner mutex. Then the last reader leaves on one
+/// thread while the waiting write() is CANCELLED on another (write_unlock: bit cleared, no_writer notified, inner mutex
+/// released). With no guard alive and every woken task polled again, neither the read() nor the upgradable_read() may be
+/// left pending, and a fresh try_write must succeed once they are gone.
+fn rw_cancel_vs_last_reader() {
+    let mut b = loom::model::Builder::new();
+    b.preemption_bound = bound();
+    b.check(|| {
+        EXECUTIONS.fetch_add(1, std::sync::atomic::Ordering::Relaxed);
+        let l = std::sync::Arc::new(RwLock::new(0u32));
+        let r0 = l.try_read_arc().unwrap();
+        let mut tw = Task::new(l.write_arc());
+        tw.poll();
+        assert!(tw.pending());
+        let mut tr = Task::new(l.read_arc());
+        tr.poll();
+        assert!(tr.pending());
+        let mut tu = Task::new(l.upgradable_read_arc());
+        tu.poll();
+        assert!(tu.pending());
+        let t = loom::thread::spawn(move || drop(r0));
+        drop(tw); // cancellation of the announced writer, racing with the last reader's exit
+        t.join().unwrap();
+        for _ in 0..6 {
+            tr.settle();
+            tu.settle();
+        }
+        if tr.pending() || tu.pending() {
+            panic!("LOOM-VIOLATION rw_cancel_vs_last_reader: lost wake-up: no guard is alive, no writer waits, every woken task has been polled again: read() pending = {}, upgradable_read() pending = {}", tr.pending(), tu.pending());
+        }
+        drop(tr);
+        drop(tu);
+        if l.try_write_arc().is_none() {
+            panic!("LOOM-VIOLATION rw_cancel_vs_last_reader: everything is gone and try_write fails: the cancelled write() left a trace");
+        }
+    });
+    let mut b = loom::model::Builder::new();
+    b.preemption_bound = bound();
+    b.check(|| {
+        EXECUTIONS.fetch_add(1, std::sync::atomic::Ordering::Relaxed);
+        // the same with an upgrade() in place of the write(): an upgradable guard + a reader; upgrade pending; cancelled
+        // while the reader leaves; a read() and a write() wait behind it
+        let l = std::sync::Arc::new(RwLock::new(0u32));
+        let r0 = l.try_read_arc().unwrap();
+        let u = l.try_upgradable_read_arc().unwrap();
+        let mut tup = Task::new(async_lock::RwLockUpgradableReadGuardArc::upgrade(u));
+        tup.poll();
+        assert!(tup.pending());
+        let mut tr = Task::new(l.read_arc());
+        tr.poll();
+        assert!(tr.pending());
+        let mut tw = Task::new(l.write_arc());
+        tw.poll();
+        assert!(tw.pending());
+        let t = loom::thread::spawn(move || drop(r0));
+        drop(tup); // cancellation of the pending upgrade: write_unlock, the upgradable lock it consumed is released too
+        t.join().unwrap();
+        for _ in 0..8 {
+            tr.settle();
+            tw.settle();
+            if let Some(g) = tr.out.take() { drop(g); tr.polled = false; }
+            if let Some(g) = tw.out.take() { drop(g); tw.polled = false; }
+        }
+        if tr.pending() || tw.pending() {
+            panic!("LOOM-VIOLATION rw_cancel_vs_last_reader: lost wake-up after a cancelled upgrade: no guard is alive, every woken task has been polled again: read() pending = {}, write() pending = {}", tr.pending(), tw.pending());
+        }
+        drop(tr);
+        drop(tw);
+        if l.try_write_arc().is_none() {
+            panic!("LOOM-VIOLATION rw_cancel_vs_last_reader: everything is gone and try_write fails: the cancelled upgrade left a trace");
+        }
+    });
+}
+
+/// a future that is Pending until its flag is set (the harness's "gate": an initialiser that waits for something)
+struct Gate(Arc<AtomicBool>);
+impl Future for Gate {
+    type Output = ();
+    fn poll(self: Pin<&mut Self>, _cx: &mut Context<'_>) -> Poll<()> {
+        if self.0.load(Ordering::SeqCst) { Poll::Ready(()) } else { Poll::Pending }
+    }
+}
+
+/// C08 with the passive waiters: A runs a get_or_init whose closure pends; B is a wait() (passive_waiters); C is a second
+/// get_or_init (active_initializers). A is CANCELLED on one thread (its guard resets the cell and notifies one active
+/// waiter) while C is polled on another. At quiescence C has taken over and initialised the cell, and the wait() has
+/// completed with that value; the cell is never left Initializing with nobody running.
+fn once_wait_vs_cancel() {
+    let mut b = loom::model::Builder::new();
+    b.preemption_bound = bound();
+    b.check(|| {
+        EXECUTIONS.fetch_add(1, std::sync::atomic::Ordering::SeqCst);
+        let cell = std::sync::Arc::new(OnceCell::<u32>::new());
+        let gate = Arc::new(AtomicBool::new(false));
+        let (c1, g1) = (cell.clone(), gate.clone());
+        let mut ta = Task::new(async move { *c1.get_or_init(|| async move { Gate(g1).await; 7u32 }).await });
+        ta.poll();
+        assert!(ta.pending());
+        let c2 = cell.clone();
+        let mut tb = Task::new(async move { *c2.wait().await });
+        tb.poll();
+        assert!(tb.pending());
+        let c3 = cell.clone();
+        let mut tc = Task::new(async move { *c3.get_or_init(|| async { 9u32 }).await });
+        tc.poll();
+        assert!(tc.pending());
+        let t = loom::thread::spawn(move || drop(ta)); // cancellation of the running initialiser
+        tc.poll(); // a spurious poll of the second initialiser races with it
+        t.join().unwrap();
+        for _ in 0..6 {
+            tc.settle();
+            tb.settle();
+        }
+        if tc.pending() {
+            panic!("LOOM-VIOLATION once_wait_vs_cancel: hand-over lost: the running initialiser was cancelled, every woken task has been polled again, and the waiting get_or_init is still pending (cell = {:?})", cell.get());
+        }
+        if tb.pending() {
+            panic!("LOOM-VIOLATION once_wait_vs_cancel: the cell is initialised, every woken task has been polled again, and the wait() future is still pending");
+        }
+        if tc.out != Some(9) || tb.out != Some(9) || cell.get().copied() != Some(9) {
+            panic!("LOOM-VIOLATION once_wait_vs_cancel: values: get_or_init {:?}, wait {:?}, cell {:?} (9 expected everywhere)", tc.out, tb.out, cell.get());
+        }
+        drop(tb);
+        drop(tc);
+    });
+}
+
 fn main() {
     let which = std::env::args().nth(1).unwrap_or_else(|| "all".to_string());
     let tests: Vec<(&str, fn())> = vec![
@@ -811,6 +939,8 @@ fn main() {
         ("rw_writer_announced", rw_writer_announced),
         ("mutex_starved_try", mutex_starved_try),
         ("blocking_forms", blocking_forms),
+        ("once_wait_vs_cancel", once_wait_vs_cancel),
+        ("rw_cancel_vs_last_reader", rw_cancel_vs_last_reader),
         ("mutex_blocking_vs_starved", mutex_blocking_vs_starved),
         ("barrier_blocking_generations", barrier_blocking_generations),
     ];
